@@ -9,6 +9,49 @@ def undone(r):
     return r['actions'].get('Undo', 0) >= 1 and r['txns'] >= 3
 
 
+def undo_pack_scripts(rng, n):
+    """undo before and after packs and reopen: a few commits over 3 objects (oid 1 resolves), undos (single, two per
+    transaction, undo of undo, undo of a creation), a pack at any second with gc on or off, then more undos of
+    transactions on both sides of the pack time (many must fail: the pre-state was packed away), reopen"""
+    from ..drivers import scripts as sc
+    out = []
+    while len(out) < n:
+        clk = 1
+        s = sc.commit([(0, 'v1', (1, 2)), (1, 'v1', ()), (2, 'v1', ())], clk=clk)
+        ntx = 1
+        for _ in range(rng.randint(2, 5)):
+            clk = min(clk + rng.choice((0, 1, 1)), 6)
+            op = rng.random()
+            # ntx: transactions that are certainly committed (plain commits never fail; an undo may)
+            if op < 0.5:
+                s += sc.commit([(rng.choice((1, 2)), rng.choice(('v1', 'v2')), ())], clk=clk)
+                ntx += 1
+            elif op < 0.6:
+                s += sc.commit([(1, 'v2', ()), (2, 'v2', ())], clk=clk)
+                ntx += 1
+            elif op < 0.85 or ntx < 2:
+                s += sc.undo(-1, clk=clk) if (rng.random() < 0.6 or ntx < 2) else sc.undo(-1, clk=clk, more=(-2,))
+            else:
+                s += sc.undo(-rng.randint(2, min(ntx, 4)), clk=clk)
+        s += sc.pack(rng.randint(1, clk + 1), rng.random() < 0.6)
+        if rng.random() < 0.4:
+            s += sc.reopen()
+        for _ in range(rng.randint(1, 3)):
+            clk = min(clk + 1, 7)
+            op = rng.random()
+            if op < 0.6:
+                s += sc.undo(-rng.randint(1, min(ntx, 5)), clk=clk)
+            elif op < 0.8 and ntx >= 2:
+                s += sc.undo(-1, clk=clk, more=(-2,))
+            else:
+                s += sc.commit([(rng.choice((1, 2)), 'v2', ())], clk=clk)
+                ntx += 1
+        if rng.random() < 0.5:
+            s += sc.reopen()
+        out.append(s)
+    return out
+
+
 def run(ctx):
     clock.install()
     q = ctx.quick
@@ -23,7 +66,26 @@ def run(ctx):
     c = sd.consts('file', Cls='MCCls', **big)
     files = S.simulate(ctx, 'file', c, num=num, depth=80, seed=ctx.seed + 7, next_='NextUndo')
     res = S.replay_all(ctx, files, 'file', c)
+    # undo before and after packs and reopen (directed scripts evaluated by TLC)
+    import random
+    from ..drivers import scripts as sc
+    scripts = undo_pack_scripts(random.Random(ctx.seed * 131 + 3), 150 if q else 3000)
+    cs = sd.consts('file', Cls='MCCls', **dict(big, NOid=3, MaxTxn=14, MaxRecs=7, MaxClock=8, RefSets='FewRefs2'))
+    behs = sc.evaluate(ctx, 'undo-pack', scripts, cs)
+    res2 = S.replay_all(ctx, behs, 'file', cs, opts={'sparse': False}, tag='up')
+    res = res + res2
+    after_pack = 0
+    for b in behs:
+        acts = [st['action'] for st in b]
+        if 'Pack' in acts and 'Undo' in acts[acts.index('Pack'):]:
+            after_pack += 1
+    if after_pack < len(behs) // 3:
+        raise RuntimeError('vacuous run: only %d of %d scripts reach an undo after a pack' % (after_pack, len(behs)))
+    if sum(1 for s_, b in zip(scripts, behs) if sc.complete(s_, b)) < len(behs) * 0.9:
+        raise RuntimeError('directed undo/pack scripts were not evaluated to their end')
     cov = S.judge(ctx, res, 'file', focus=undone)
+    cov['scripted_undo_pack'] = {'scripts': len(behs), 'with_undo_after_pack': after_pack,
+                                 'evaluated_to_the_end': sum(1 for s_, b in zip(scripts, behs) if sc.complete(s_, b))}
     return ctx.finish({
         'evaluations': cov['behaviours'],
         'distinct_nontrivial': cov['nontrivial'],
@@ -32,7 +94,8 @@ def run(ctx):
                 'mergeable (oid 1 has a resolver) / conflicting changes, close/reopen in between); undo() must return the '
                 'oids or raise UndoError exactly as the transcription of _transactionalUndoRecord in the specification '
                 'says, and after the commit every query must equal the specification table; TLC checks UndoSemantics on '
-                'the specification; non-trivial = at least one undo call and three commits',
+                'the specification; directed scripts (evaluated by TLC through ZScript) add undos before and after packs at every second '
+                '(gc on/off) and reopen; non-trivial = at least one undo call and three commits',
         'traces_validated_against_impl': cov['behaviours'],
         'per_storage': {'file': cov},
         'samples': [res[0]['sig'][:30]],
